@@ -44,6 +44,7 @@ def run_hp(ctx, rng, cov):
     cases = [c for c in cases if "cfg" in c and "threads" in c and c.get("scheme", "hp") == "hp"]
     ncorpus = len(cases)
     cases += C01.gen_cases(rng, 4000 if ctx.thorough() else 900, start=300000)
+    cases += C01.gen_phased_cases(ctx, model, rng, 200 if ctx.thorough() else 40, start=500000)
     rc1, mlog, rc2, ilog, raw = conc_check.run_both(ctx, model, impl, cases, tag="hp_cases", fuel=40000)
     C01.strip_ghost(mlog)
     diverged = 0; first_div = None; steps = 0; hits = {}; retired = 0; disposed = 0; exact = 0
